@@ -98,6 +98,9 @@ def families(ctx):
         cases.append(("corpus-prefix", t[:cut]))
         if rng.random() < 0.3:
             cases.append(("corpus-noise", parsergen.noise(rng, t[:cut][-3000:], 3)))
+    # (viii) deep nesting followed by more text (whatever happens at a nesting limit, nothing after it may be dropped)
+    for t in parsergen.deep_with_tail([129, 256] if q else [64, 100, 127, 128, 129, 130, 200, 255, 256, 257, 300], tails=(1 if q else 2)):
+        cases.append(("deep-nesting+tail", t))
     # regression inputs (minimised past disagreements)
     reg = os.path.join(vlib.VERIF, "corpus", "parser", "regressions.json")
     if os.path.exists(reg):
